@@ -16,7 +16,10 @@ import (
 
 // OpenIndex opens an index file previously created using the IndexWriter.
 func OpenIndex(file string, opts ...IndexOption) (*Index, error) {
-	db, err := bbolt.Open(file, 0644, &bbolt.Options{OpenFile: openfile.OpenFile(openfile.Options{FailIfFileDoesntExist: true})})
+	// An index is only ever read: open it read-only, which takes a shared file lock, so the
+	// same file can be opened several times (e.g. by the sql driver under different options)
+	// and is never written to.
+	db, err := bbolt.Open(file, 0644, &bbolt.Options{ReadOnly: true, OpenFile: openfile.OpenFile(openfile.Options{FailIfFileDoesntExist: true})})
 	if err != nil {
 		return nil, err
 	}
